@@ -26,6 +26,8 @@ RFILE = "ethosu/vela/range_set.py"
 def run(repo, rep):
     rep.clause("C04-a", "MemoryAccessSet.conflicts reports RAW, WAR and WAW (and only those); RangeSet keeps the sorted order its sweep relies on")
     rep.clause("C04-b", "every address-bearing field of the API operation classes enters the access set with the right direction; LUT/SHRAM ranges present")
+    rep.clause("C04-j", "the emitted BLOCKDEP always derives from calc_blockdep for the operation and its predecessor kernel (no shortcut under a side condition)")
+    rule_blockdep_source(repo, rep)
     rep.clause("C04-h", "the SHRAM extents that hazards are tracked on are the hardware's: which banks are reserved for the LUT decides whether a LUT DMA conflicts with a kernel's accumulators [rule shared with C15-c]")
     from . import c15 as _c15
 
@@ -796,3 +798,59 @@ def rule_round5(repo, rep):
     rep.check(got in modelled and got == "dma_op.src.length", "C04-g", "ethosu/vela/register_command_stream_generator.py:generate_dma_op", "DMA0_LEN is the source range's length, the length the access set models",
               f"programs `{got}` while the access set is built from {sorted(modelled)}: the transfer touches bytes the wait logic does not know about")
     rep.floor("C04-g", 4)
+
+
+def rule_blockdep_source(repo, rep):
+    """(j) The block dependency emitted for a kernel is what calc_blockdep computes for it and its predecessor kernel, at most clamped to
+    the architecture's maximum. The value may not be replaced by a constant under a condition the command stream generator tracks on
+    the side: whether the predecessor has finished is known only after KERNEL_WAIT 0 - a wait for an *earlier* kernel (KERNEL_WAIT 1)
+    leaves the predecessor running. Every definition of the emitted value that reaches the emission is followed back through
+    min(.., <clamp>) / copies: its leaves must be the one calc_blockdep(arch, prev_op, npu_op) call."""
+    m = repo.mod("register_command_stream_generator")
+    f = m.func("generate_command_stream")
+    site = "ethosu/vela/register_command_stream_generator.py:generate_command_stream"
+    em = [c for c in ast.walk(f) if isinstance(c, ast.Call) and "cmd0_with_param" in str(norm(c.func)) and c.args and str(norm(c.args[0])) == "cmd0.NPU_SET_BLOCKDEP"]
+    if len(em) != 1 or len(em[0].args) != 2:
+        raise AnalysisError("generate_command_stream: emission of NPU_SET_BLOCKDEP not found")
+    leaves = []
+
+    def follow(e, depth=0):
+        if depth > 6:
+            leaves.append(("deep", str(norm(e))))
+            return
+        if isinstance(e, ast.Name):
+            defs = [a for a in ast.walk(f) if isinstance(a, ast.Assign) and len(a.targets) == 1 and str(norm(a.targets[0])) == e.id and a.lineno <= em[0].lineno]
+            if not defs:
+                leaves.append(("free", e.id))
+            for a in defs:
+                if any(isinstance(x, ast.Name) and x.id == e.id for x in ast.walk(a.value)):
+                    # x = min(x, clamp): follow the other operands only
+                    if isinstance(a.value, ast.Call) and call_name(a.value) == "min":
+                        for arg in a.value.args:
+                            if not (isinstance(arg, ast.Name) and arg.id == e.id):
+                                t = str(norm(arg))
+                                if not ("max_blockdep" in t.lower() or "MAX_BLOCKDEP" in t):
+                                    follow(arg, depth + 1)
+                        continue
+                    leaves.append(("self", str(norm(a.value))))
+                    continue
+                follow(a.value, depth + 1)
+            return
+        if isinstance(e, ast.Call) and call_name(e) == "min":
+            for arg in e.args:
+                t = str(norm(arg))
+                if not ("max_blockdep" in t.lower() or "MAX_BLOCKDEP" in t):
+                    follow(arg, depth + 1)
+            return
+        if isinstance(e, ast.IfExp):
+            leaves.append(("cond", str(norm(e.test))))
+            follow(e.body, depth + 1)
+            follow(e.orelse, depth + 1)
+            return
+        leaves.append(("expr", str(norm(e))))
+
+    follow(em[0].args[1])
+    good = [l for l in leaves if l[0] == "expr" and l[1] in ("calc_blockdep(arch, prev_op, npu_op)",)]
+    other = [l for l in leaves if l not in good]
+    rep.check(bool(good) and not other, "C04-j", site, "the emitted BLOCKDEP is calc_blockdep(arch, prev_op, npu_op), clamped to the maximum, on every path",
+              f"other sources of the emitted value: {other[:3]}: a constant chosen under a side condition skips the overlap calculation (after KERNEL_WAIT 1 the previous kernel is still running, its consumer would start on unwritten blocks)")
